@@ -1719,6 +1719,11 @@ fn drain_preds(a: &Analysis, v: &mut Vec<Viol>, f: &mut Feat) {
             continue;
         }
         f.add("drain", 1);
+        if got(o).len() >= 64 {
+            f.add("drain_ge64", 1);
+        } else if got(o).len() >= 16 {
+            f.add("drain_ge16", 1);
+        }
         if o.prefix_ok == Some(false) {
             v.push(Viol {
                 pred: "drain_prefix_or_error_append",
